@@ -7,6 +7,10 @@ fn usage() -> ! {
 
 fn main() {
     let args: Vec<String> = std::env::args().collect();
+    if args.len() >= 2 && args[1] == "steady" {
+        check::c20::steady();
+        return;
+    }
     if args.len() < 3 || args[1] != "check" {
         usage();
     }
@@ -77,7 +81,9 @@ fn main() {
         "C05" => check::hon::run_c05(&ctx),
         "C07" => check::hon::run_c07(&ctx),
         "C08" => check::c08::run(&ctx),
+        "C09" => check::c09::run(&ctx),
         "C12" => check::hon::run_c12(&ctx),
+        "C20" => check::c20::run(&ctx),
         "C13" => check::hon::run_c13(&ctx),
         "C16" => check::hon::run_c16(&ctx),
         _ => {
